@@ -58,6 +58,8 @@ type World struct {
 	order    []uint64 // thread numbering by first appearance
 	failNext map[uint64]error
 	dead     map[uint64]bool
+	threadOf map[uint64]int // which injected frame a goroutine works for (stepped runs with two frames)
+	curThread int
 	epoch    int
 	myEpoch  int
 }
@@ -121,6 +123,11 @@ func (w *World) hook(op string, args ...any) error {
 	if w.dead[g] {
 		w.mu.Unlock()
 		return nil
+	}
+	if w.threadOf != nil {
+		if _, ok := w.threadOf[g]; !ok {
+			w.threadOf[g] = w.curThread
+		}
 	}
 	w.account(op)
 	w.trace = append(w.trace, op)
@@ -594,4 +601,80 @@ func (w *World) restart() {
 	w.trace, w.downs, w.pubs = nil, nil, nil
 	w.mu.Unlock()
 	w.open()
+}
+
+
+// runSched feeds two packets and interleaves their handlers operation by operation: sched[i]
+// says which frame's handler performs the i-th operation when both have one pending (false = the
+// first frame). Returns the operations in the order performed, tagged with the frame number.
+func (w *World) runSched(p1, p2 server.GatewayPacket, sched []bool) ([]string, string) {
+	w.mu.Lock()
+	w.stepped = true
+	w.parked = map[uint64]*parkedG{}
+	w.threadOf = map[uint64]int{}
+	w.curThread = 0
+	w.mu.Unlock()
+	deadline := time.Now().Add(30 * time.Second)
+	settle := func() bool {
+		w.mu.Lock()
+		defer w.mu.Unlock()
+		for !w.settledLocked() {
+			if time.Now().After(deadline) {
+				return false
+			}
+			waitCond(w.cond, 20*time.Millisecond)
+		}
+		return true
+	}
+	finish := func(tr []string, st string) ([]string, string) {
+		w.mu.Lock()
+		w.stepped = false
+		w.threadOf = nil
+		w.mu.Unlock()
+		return tr, st
+	}
+	w.inject(p1)
+	if !settle() {
+		return finish(nil, "HUNG")
+	}
+	w.mu.Lock()
+	w.curThread = 1
+	w.mu.Unlock()
+	w.inject(p2)
+	if !settle() {
+		return finish(nil, "HUNG")
+	}
+	var trace []string
+	for i := 0; ; i++ {
+		w.mu.Lock()
+		var cand [2]*parkedG
+		for _, x := range w.parked {
+			t := w.threadOf[x.gid]
+			if cand[t] == nil || x.gid < cand[t].gid {
+				cand[t] = x
+			}
+		}
+		if cand[0] == nil && cand[1] == nil {
+			w.mu.Unlock()
+			break
+		}
+		pick := 0
+		if cand[0] != nil && cand[1] != nil {
+			if i < len(sched) && sched[i] {
+				pick = 1
+			}
+		} else if cand[1] != nil {
+			pick = 1
+		}
+		pg := cand[pick]
+		delete(w.parked, pg.gid)
+		w.curThread = pick
+		w.mu.Unlock()
+		trace = append(trace, fmt.Sprintf("%d:%s", pick, gateName(pg.op)))
+		pg.resume <- nil
+		if !settle() {
+			return finish(trace, "HUNG")
+		}
+	}
+	return finish(trace, "done")
 }
